@@ -11,8 +11,65 @@ RULE = ("engine level: random DAGs x configs (workers 1..n+2) x failing sets x c
 TRUSTED_BASE = ["harness/detsched.py, harness/engine_corr.py, harness/planlevel.py"]
 
 
+def literal_cycles(ctx):
+    """a cycle closed through Literal nodes connected only by add_dependency edges must be rejected as well"""
+    import networkx as nx
+    uberjob = core.use_repo()
+    for shape in ("x-lit-x", "x-lit-lit-x", "src-x-lit-x", "x-y-lit-x"):
+        for with_output in (True, False):
+            calls = []
+            p = uberjob.Plan()
+            f = lambda *a: calls.append(a) or 1
+            x = p.call(f)
+            l1 = p.lit("gate")
+            if shape == "x-lit-x":
+                p.add_dependency(x, l1); p.add_dependency(l1, x)
+                out = x
+            elif shape == "x-lit-lit-x":
+                l2 = p.lit("gate2")
+                p.add_dependency(x, l1); p.add_dependency(l1, l2); p.add_dependency(l2, x)
+                out = x
+            elif shape == "src-x-lit-x":
+                s0 = p.call(f)
+                y = p.call(f, s0)
+                p.add_dependency(y, l1); p.add_dependency(l1, y)
+                out = y
+            else:
+                y = p.call(f, x)
+                p.add_dependency(y, l1); p.add_dependency(l1, x)
+                out = y
+            ctx.case(("literal-cycle", shape, with_output))
+            try:
+                uberjob.run(p, output=out if with_output else [out, 1], progress=None, max_workers=2)
+                ctx.fail("cycle:literal-not-rejected", "a dependency cycle through a literal (%s) was run without an error; calls executed: %d" % (shape, len(calls)),
+                         {"shape": shape})
+            except nx.HasACycle:
+                if calls:
+                    ctx.fail("cycle:literal-late", "cycle through a literal (%s) reported after %d calls ran" % (shape, len(calls)), {"shape": shape})
+            except BaseException as e:  # noqa
+                ctx.fail("cycle:literal-wrong-error", "cycle through a literal (%s) raised %r" % (shape, e), {"shape": shape})
+
+
+def interrupted(ctx):
+    """when run raises because the calling thread was interrupted, nothing is still executing and every thread has exited"""
+    import detsched
+    camp = engine_corr.EngineCampaign(ctx)
+    rng = ctx.rng
+    for gi in range(ctx.n(12, 100)):
+        fam, nodes, edges = engine_corr.gen_graph(rng, maxn=7)
+        if len(nodes) < 2:
+            continue
+        k = rng.randrange(0, len(nodes))
+        run_, outcome = camp.one(nodes, edges, rng.choice([1, 2, 3]), rng.choice([0, None]), rng.choice(["default", "random", "cheap"]),
+                                 [], "Exception", detsched.random_chooser(rng, 0.2), "interrupt", interrupt_at=("join", k))
+        ctx.case(("c07-interrupt", tuple(nodes), tuple(edges), k))
+    engine_corr.file_findings(ctx, camp, {"C07"})
+
+
 def run(ctx):
     engine_corr.campaign(ctx, {"C07"})
+    literal_cycles(ctx)
+    interrupted(ctx)
     planlevel.plan_campaign(ctx, {"C07"}, n_quick=60, n_thorough=1000)
     cycles(ctx)
     import topo_corr
